@@ -629,7 +629,7 @@ fn main() {
         let mut values_equal = 0u64;
         for i in 0..nfrag {
             let mut r = Rng::for_case(opts.seed ^ 0xF1A6, i);
-            let mut g = frag1::Gen { r: &mut r, env: vec![], counter: 0, blocks: i % 2 == 1, fns: i % 4 == 3, in_body: false };
+            let mut g = frag1::Gen { r: &mut r, env: vec![], counter: 0, blocks: i % 2 == 1, fns: i % 4 == 3, body_depth: 0 };
             let seq = g.seq(2);
             let src = frag1::src_seq(&seq);
             let unit = match compile_program(&src, &b) {
